@@ -34,7 +34,7 @@ CANARIES = [("fraction_rounded_not_truncated", "pendulum.parsing.iso8601.parse_i
 
 ASSUMPTIONS = [
     "A-RE: the real compiled regex ISO8601_DT is executed by CPython's re on two representatives of each shape; its group spans depend only on the shape because every class/literal of the pattern treats the ten digits alike (checked mechanically on the parsed pattern on every run)",
-    "string shape: proofs are per shape (which separators/designators are present, how many digits each run has); digits are symbolic. Quick tier: a covering family of 107 shapes; thorough tier: the full product of 16.7k well-formed shapes",
+    "string shape: proofs are per shape (which separators/designators are present, how many digits each run has); digits are symbolic. Quick tier: a covering family of 107 shapes; thorough tier: the full product of date forms x separators x time structures x offset forms with eight fraction variants (about 3,400 shapes)",
     "stdlib contracts assumed: int() of a digit string, str slicing/split/startswith/format padding, datetime.date/time/datetime constructors (ValueError exactly outside their documented ranges), date + timedelta, FixedTimezone.__init__",
     "pendulum.parse()/parser.py wrapping (DateTime/Date/Time construction, tz option, exact) and the fallback chain are checked bounded end to end, not proved",
     "Rust parser (rust/src/parsing.rs): never proved; rebuilt from the working tree on every run and compared with the constructive oracle (bounded)",
@@ -52,7 +52,7 @@ def bounded(ctx):
 
 MANIFEST_ENTRY = {
     "text": "For every well-formed string shape (calendar / ordinal / week date, basic or extended, reduced forms, T or space, five time structures, fraction of 1..9 digits after '.' or ',', Z or +-hh[[:]mm]) and ALL digit values, the pure-Python parse_iso8601 is proved to raise a ValueError exactly when the digits denote an impossible date, ordinal, week, weekday, time or offset and otherwise to return exactly the denoted date, time, microsecond (truncated) and offset. The compiled parser, pendulum.parse() wrapping, exact/tz options and the inversion of isoformat/str/to_iso8601_string/to_rfc3339_string/atom/w3c are checked bounded against a constructive oracle on both backends.",
-    "note": "Trusted: pyvc, z3/cvc5, A-RE (regex run on shape representatives; digit-invariance of the pattern checked mechanically). Proof is per shape: quick tier 107 covering shapes, thorough tier all 16.7k. Three genuine defects of the Python parser found by refuted obligations and fixed (week 00 / weekday 0 accepted; bare hhmmss with hour < 10; week dates before year 1000). Rust defects (last day of month in ordinal/week dates, 'Thh:mm:ss', bare hh/hhmmss, week 00) are bounded known findings; Rust is never proved.",
+    "note": "Trusted: pyvc, z3/cvc5, A-RE (regex run on shape representatives; digit-invariance of the pattern checked mechanically). Proof is per shape: quick tier 107 covering shapes, thorough tier the full group product (about 3,400 shapes). Three genuine defects of the Python parser found by refuted obligations and fixed (week 00 / weekday 0 accepted; bare hhmmss with hour < 10; week dates before year 1000). Rust defects (last day of month in ordinal/week dates, 'Thh:mm:ss', bare hh/hhmmss, week 00) are bounded known findings; Rust is never proved.",
     "technique": "contract-based deductive verification per string shape (symbolic execution of the real parser with symbolic digits, z3/cvc5); bounded constructive-oracle sweeps for the Rust parser and the public parse() entry point",
     "design_ref": "DESIGN.md section 8 (C07), 12",
 }
